@@ -1,8 +1,53 @@
-import PyGam.Drv.Common
+import PyGam.Model.Penalty
+import PyGam.Drv.TermParse
 namespace PyGam.Drv.C05
 open PyGam PyGam.Drv
 
-/-- operations of the C05 model driver (`C05 <op> <args…>`); `none` ↦ `bad-op` -/
-def handle : List String → Option String
+def conOf : String → Option ConKind
+  | "none" => some .none
+  | "convex" => some .convex
+  | "concave" => some .concave
+  | "monotonic_inc" => some .monoInc
+  | "monotonic_dec" => some .monoDec
+  | _ => none
+
+/-- operations of the C05 model driver
+* `con <kind> <n> | <coef…>`                     → `penalties.<kind>(n, coef)` (exact rationals)
+* `tcon <terms> | <coef…> | <clam> <cl2>`        → `TermList.build_constraints(coef, clam, cl2)`
+* `termcon <i> <terms> | <coef of term i…> | <clam> <cl2>` → `terms[i].build_constraints(…)` -/
+def handle (toks : List String) : Option String :=
+  match toks with
+  | "con" :: kind :: n :: rest =>
+    match splitBar rest with
+    | [[], cs] => do
+        let k ← conOf kind
+        let n ← n.toNat?
+        let c ← parseRats? cs
+        if c.length ≠ n then none else
+        some (showMatRat (matToLists n n (conMatrix n (listToVec c) k)))
+    | _ => none
+  | "tcon" :: rest =>
+    match splitBar rest with
+    | [ts, cs, [clam, cl2]] => do
+        let (terms, r) ← pTerms ts
+        if r ≠ [] then none else
+        let c ← parseRats? cs
+        let clam ← parseRat? clam; let cl2 ← parseRat? cl2
+        let n := nCoefsAll terms
+        if c.length ≠ n then none else
+        some (showMatRat (matToLists n n (constraintAll terms (listToVec c) clam cl2)))
+    | _ => none
+  | "termcon" :: i :: rest =>
+    match splitBar rest with
+    | [ts, cs, [clam, cl2]] => do
+        let i ← i.toNat?
+        let (terms, r) ← pTerms ts
+        if r ≠ [] then none else
+        let t ← terms[i]?
+        let c ← parseRats? cs
+        let clam ← parseRat? clam; let cl2 ← parseRat? cl2
+        if c.length ≠ t.nCoefs then none else
+        some (showMatRat (matToLists t.nCoefs t.nCoefs (t.constraint (listToVec c) clam cl2)))
+    | _ => none
   | _ => none
 end PyGam.Drv.C05
